@@ -3,6 +3,7 @@ package payload
 import (
 	"bytes"
 	"fmt"
+	"github.com/hashicorp/eventlogger/filters/encrypt"
 	"reflect"
 	"sort"
 	"strings"
@@ -95,7 +96,7 @@ type Finding struct {
 }
 
 const (
-	redacted = "[REDACTED]"
+	redacted = encrypt.RedactedData // the exported marker, whatever its text
 	encPfx   = "encrypted:"
 	macPfx   = "hmac-sha256:"
 )
